@@ -610,6 +610,13 @@ impl Scenario for C20Lib {
                             out.violate("O3-dest-unchanged-when-open-fails", format!("destination content changed although it could not be opened; {ctx}"));
                         }
                     }
+                    if dest.old_path.is_some() && old_now.is_none() {
+                        out.violate("O3-dest-unchanged-when-open-fails", format!("the pre-existing destination is gone although it could not even be opened; {ctx}"));
+                    }
+                }
+                // whatever the fault: a failed delivery never removes or renames anything
+                if let Some(e) = mutating.iter().find(|e| e.call == "unlink" || e.call == "rename") {
+                    out.violate("O3-failed-delivery-removes-nothing", format!("{}({}) issued by a delivery that failed; {ctx}", e.call, e.path));
                 }
             } else if (close_fault || stat_dest_fault) && !res.ok {
                 // reporting a close() error, or failing because the destination could not be
